@@ -86,10 +86,33 @@ def make(name, **kw):
     return _call((name, kw))
 
 
-def pmake(jobs, procs=None, chunksize=64):
-    """Run many driver jobs [(name, kwargs), ...] in worker processes (fork)."""
+def _optimized(jobs):
+    """Run *jobs* in one interpreter started with -O (the library's asserts and `if __debug__` blocks are gone there)."""
+    import subprocess
+    env = dict(os.environ, PYTHONPATH=os.environ.get('PENMAN_SRC', '/repo'), PYTHONDONTWRITEBYTECODE='1')
+    p = subprocess.run([sys.executable, '-O', '-B', '-m', 'harness.opt_worker'], input=json.dumps(jobs), capture_output=True, text=True,
+                       env=env, cwd=VERIF, timeout=3600)
+    if p.returncode != 0:
+        raise tlc.MachineryError('the -O worker failed: ' + p.stderr[-2000:])
+    out = [json.loads(l) for l in p.stdout.splitlines() if l.strip()]
+    if len(out) != len(jobs):
+        raise tlc.MachineryError('the -O worker returned %d traces for %d jobs' % (len(out), len(jobs)))
+    for t in out:
+        t['_opt'] = True          # so that a replay runs the case under -O again
+    return out
+
+
+def pmake(jobs, procs=None, chunksize=64, optimized_share=0.0):
+    """Run many driver jobs [(name, kwargs), ...] in worker processes (fork).  optimized_share: that share of the jobs (every
+    n-th) runs in an interpreter started with -O instead - a result may not depend on assertions being enabled."""
     if not jobs:
         return []
+    if optimized_share > 0 and not os.environ.get('VERIF_COVER'):
+        step = max(1, int(round(1 / optimized_share)))
+        idx = list(range(0, len(jobs), step))
+        opt = _optimized([jobs[i] for i in idx])
+        rest = pmake([j for i, j in enumerate(jobs) if i % step], procs=procs, chunksize=chunksize)
+        return _sift(opt) + rest
     procs = procs or min(16, max(1, len(jobs) // 200))
     if os.environ.get('VERIF_COVER'):
         procs = 1          # line coverage is collected in this process
@@ -212,7 +235,7 @@ class Check:
             with open(path, 'w') as f:
                 json.dump({'property': self.pid, 'module': module, 'clause': clause, 'count': len(ts),
                            'seed': self.seed, 'tier': self.tier,
-                           'cases': [{'drv': t.get('_drv'), 'trace': strip_private(t)} for t in ts[:20]]}, f, indent=1)
+                           'cases': [{'drv': t.get('_drv'), 'opt': bool(t.get('_opt')), 'trace': strip_private(t)} for t in ts[:20]]}, f, indent=1)
             violations.append((clause, len(ts), path))
         wall = time.time() - self.t0
         cov = {
@@ -298,7 +321,9 @@ def replay(pid, path):
             print(f'VIOLATION property={pid} replay={path}')
         return 1 if bad else 0
     for c in r['cases']:
-        if c.get('drv'):
+        if c.get('drv') and c.get('opt'):
+            traces.extend(_optimized([c['drv']]))
+        elif c.get('drv'):
             traces.append(make(c['drv'][0], **c['drv'][1]))
         else:
             traces.append(c['trace'])
